@@ -57,7 +57,7 @@ def _exc(e):
 class Recorder:
     def __init__(self):
         self.ConfigId, self.Bf3File = _lib()
-        self.evs, self.tid = [], 0
+        self.evs, self.tid, self.last = [], 0, None
 
     def _tid(self):
         self.tid += 1
@@ -91,8 +91,10 @@ class Recorder:
     def rec_parse(self, text):
         ev = {"tid": self._tid(), "op": "parse", "text": chars(text), "k": "ok", "f": NOF, "cls": "", "mro": [],
               "rk": "skip", "r": [], "rcls": ""}
+        self.last = None
         try:
             o = self.ConfigId.create_from_str(text)
+            self.last = o                                         # (histories edit the object the caller received)
             ev["f"] = _fields(o)
         except Exception as e:                                    # noqa: BLE001
             ev["k"] = "raise"
@@ -114,8 +116,10 @@ class Recorder:
               "vals": [{"has": 1 if v in vals else 0, "b": list(vals.get(v, b""))} for v in range(1, 8)],
               "k": "ok", "f": NOF, "cls": "", "mro": [], "ck": "unset", "ctext": [], "ccls": ""}
         fn = self.ConfigId.create_from_prj_settings if which == "prj" else self.ConfigId.create_from_dev_settings
+        self.last = None
         try:
-            ev["f"] = _fields(fn(dict(cfg)))
+            self.last = fn(dict(cfg))
+            ev["f"] = _fields(self.last)
         except Exception as e:                                    # noqa: BLE001
             ev["k"] = "raise"
             ev["cls"], ev["mro"] = _exc(e)
@@ -255,7 +259,35 @@ def gen_events(rec, r, thorough):
             for which in (("prj", "dev") if k % 2 == 0 else ("dev", "prj")):
                 rec.rec_derive(which, dict(vals), {})
     n_derive = len(rec.evs) - n_ids - n_parse
-    return {"numeric_range_ids": n_numeric, "id_events": n_ids, "parse_events": n_parse, "derive_events": n_derive}
+    # ---- histories on returned identifiers: the caller owns the object it got; editing it must not show in a later
+    #      parse of an equal text / derivation from an equal configuration (each call is an ordinary event)
+    n_before = len(rec.evs)
+
+    def edit(o):
+        if o is not None:
+            o.version = (o.version or 0) + 1
+            o.name = "edited by the caller"
+            o.customer, o.project, o.device = 4242, 17, 99
+
+    texts = ["12345-0001-0002-03", "12345-0001-0002-03 Office", "00007-0000-0000-00", "54321-9999-0000-99 n", "Door (version 07)",
+             "a (version 12) (version 13)", "12345-0001-0002-03x", "abc (version 12)zzz", "unparsable", "x (version 1)"]
+    texts += ["%05d-%04d-%04d-%02d" % (r.randrange(100000), r.randrange(9999), r.randrange(9999), r.randrange(100)) for _ in range(10)]
+    for t in texts:
+        rec.rec_parse(t)
+        edit(rec.last)
+        rec.rec_parse(t)                                          # the same str object
+        edit(rec.last)
+        rec.rec_parse("".join(list(t)))                           # an equal str, another object
+        rec.rec_parse(t + " tail")
+        rec.rec_parse(t)
+    for vals in (A, Bc, C):
+        for which in ("prj", "dev", "prj"):
+            rec.rec_derive(which, dict(vals), {})
+            edit(rec.last)
+            rec.rec_derive(which, dict(vals), {})                 # an equal configuration, another dict object
+    n_obj_hist = len(rec.evs) - n_before
+    return {"numeric_range_ids": n_numeric, "id_events": n_ids, "parse_events": n_parse, "derive_events": n_derive,
+            "returned_object_history_events": n_obj_hist}
 
 
 _HEAD = re.compile(r"\d{5}-\d{4}-\d{4}-\d{2}")
